@@ -162,15 +162,18 @@ def queryGraph (db : DB) (g : Option Val) (pat : QPat) (row : Row) : List Quad :
   db.quads.filter (fun q => q.g == g && keyOk (boundOf pat.s row) q.s && keyOk (boundOf pat.p row) q.p
     && keyOk (boundOf pat.o row) q.o)
 
+/-- the seed of `scan_one_graph`: bind (or check) the graph variable -/
+def graphSeed (gbind : Option (Var × Val)) (row : Row) : Option Row :=
+  match gbind with
+  | none => some row
+  | some (v, gv) => match Row.get row v with
+      | some e => if e == gv then some row else none
+      | none => some (Row.insert row v gv)
+
 /-- `scan_one_graph` -/
 def scanOneGraph (db : DB) (pat : QPat) (g : Option Val) (gbind : Option (Var × Val)) (row : Row) : List Row :=
   (queryGraph db g pat row).filterMap (fun q =>
-    let seed : Option Row := match gbind with
-      | none => some row
-      | some (v, gv) => match Row.get row v with
-          | some e => if e == gv then some row else none
-          | none => some (Row.insert row v gv)
-    seed.bind (fun sd => matchTriple pat q.s q.p q.o sd))
+    (graphSeed gbind row).bind (fun sd => matchTriple pat q.s q.p q.o sd))
 
 /-- `scan_query_default`: merged default graph, each triple once -/
 def scanDefault (db : DB) (pat : QPat) (view : View) (row : Row) : List Row :=
